@@ -36,6 +36,7 @@ SLEEPING = ("ATTR gateway.nodes[In.node_id].sleeping = True",)
 def run(ctx: Ctx, chk) -> None:
     chk.assume("A1", "A3")
     chk.run_rule(prov_reg, ctx)
+    chk.run_rule(must_reg, ctx)
     chk.run_rule(node_methods, ctx)
     chk.run_rule(guard_mut, ctx)
     chk.run_rule(who_reg, ctx)
@@ -134,6 +135,57 @@ def prov_reg(ctx: Ctx, chk) -> None:
                 for alts in dup:
                     chk.refute(rule, f"{name}::duplicate::{alts[0]}", f"the write `{alts[0]}` is performed more than once along the handler chain of {name} (protocol {V})", callee.chain()[-1].func.where, version=V)
     chk.floor(rule, "handler-table cells with registry effects", n, 25)
+
+
+def must_reg(ctx: Ctx, chk) -> None:
+    rule = "MUST-REG"
+    chk.rule(rule, "every normal path through every definition on the chain of a reporting handler passes through one of the specified registry writes or through the delegation to the next chain element (wrapped function, super() handler, version handler): no received report is accepted (returned, yielded) without being recorded")
+    I = ctx.I
+    cells = tables.handler_cells(ctx)
+    done = set()
+    n = 0
+    for V in ctx.versions:
+        for cell, callee in cells[V].items():
+            if callee is None:
+                continue
+            name = callee.chain()[-1].func.name
+            want = _expected_for(ctx, V, cell, name)
+            if not want:
+                continue
+            chain = tables.chain_defs(ctx, callee, V)
+            alts = {a for alt in want for a in alt}
+            for f in chain:
+                if (f, name) in done:
+                    continue
+                done.add((f, name))
+                fi = ctx.inl(f, lambda h: not h.name.startswith("handle_"))
+                g = CFG(fi.node)
+                ev_nodes = []
+                for ev, node in registry_events(ctx, fi):
+                    if ev in alts:
+                        ev_nodes += g.nodes_where(lambda x, node=node: x.contains(node))
+                # delegation: super().<same>(...), the wrapped function of a decorator wrapper, another handler of the class
+                deleg = []
+                wrapped_params = set(f.parent.params) if f.parent is not None else set()
+                for c in ctx.own_nodes(fi):
+                    if not isinstance(c, ast.Call):
+                        continue
+                    fn = c.func
+                    is_super = isinstance(fn, ast.Attribute) and isinstance(fn.value, ast.Call) and norm(fn.value.func) == "super"
+                    is_wrapped = isinstance(fn, ast.Name) and fn.id in wrapped_params
+                    is_handler = isinstance(fn, ast.Attribute) and isinstance(fn.value, ast.Name) and fn.value.id in ("cls", "self") and fn.attr.startswith("handle_")
+                    if is_super or is_wrapped or is_handler:
+                        deleg += g.nodes_where(lambda x, c=c: x.contains(c))
+                n += 1
+                chk.instance(rule)
+                key = f"{f.fq}::records::{name}"
+                stop = set(ev_nodes) | set(deleg)
+                p = g.reach_avoiding([g.entry], lambda x: x is g.exit, lambda x: x in stop, labels_skip=("exc",), from_succ=False)
+                if p is None:
+                    chk.ok(rule, key, "every normal path records the report or delegates to the next chain element", f.where, sample=n <= 3)
+                else:
+                    chk.refute(rule, key, f"a normal path through {f.qualname} returns without recording the report and without delegating ({' -> '.join(g.path_text(p)[1:5])}): a received {name[7:]} message is yielded as handled but the registry does not reflect it", f.where, version=V)
+    chk.floor(rule, "chain definitions of reporting handlers", n, 8)
 
 
 def _expected_for(ctx: Ctx, V: str, cell, name: str):
@@ -333,6 +385,18 @@ def who_reg(ctx: Ctx, chk) -> None:
                 for d in defs:
                     if not d.name.startswith("handle_") and d.cls is not None and "MessageHandler" in d.cls.name:
                         allowed_funcs.add(d.fq)
+    # a private method whose only callers are allowed writers of the same class is part of them (extracted helper)
+    for f in ctx.prog.all_functions():
+        if f.cls is None or not f.name.startswith("_") or f.name.startswith("__") or f.fq in allowed_funcs:
+            continue
+        callers = []
+        for fl in f.cls.methods.values():
+            for g_ in fl:
+                if g_ is not f and any(isinstance(x, ast.Call) and isinstance(x.func, ast.Attribute) and x.func.attr == f.name and isinstance(x.func.value, ast.Name) and x.func.value.id in ("self", "cls") for x in ctx.own_nodes(g_)):
+                    callers.append(g_)
+        others = [g_ for g_ in ctx.prog.all_functions() if g_.cls is not f.cls and any(isinstance(x, ast.Attribute) and x.attr == f.name for x in ctx.own_nodes(g_))]
+        if callers and not others and all(g_.fq in allowed_funcs for g_ in callers):
+            allowed_funcs.add(f.fq)
     n = 0
     for f in ctx.prog.all_functions():
         if f.module.name.startswith("aiomysensors.cli"):
@@ -383,7 +447,7 @@ def listen1(ctx: Ctx, chk) -> None:
     reads = [n for n in inner if isinstance(n, ast.Call) and norm(n.func) == "self.transport.read"]
     loads = [n for n in inner if isinstance(n, ast.Call) and isinstance(n.func, ast.Attribute) and n.func.attr == "load"]
     yields = [n for n in inner if isinstance(n, (ast.Yield, ast.YieldFrom))]
-    dispatch = [n for n in inner if isinstance(n, ast.Call) and isinstance(n.func, ast.Name) and n.func.id == "message_handler"]
+    dispatch = tables.dispatch_calls(ctx, listen, tables.DISPATCH, within=lp)
     nested_loops = [n for n in inner if isinstance(n, (ast.For, ast.While, ast.AsyncFor)) and n is not lp]
     conds = [n for n in lp.body if isinstance(n, ast.If)]
     chk.instance(rule)
@@ -427,6 +491,8 @@ def listen1(ctx: Ctx, chk) -> None:
         msg = message_param(f)
         if msg is None:
             continue
+        if f.node.returns is not None and norm(f.node.returns).strip("'\"") not in ("Message", "_Message", "MessageT"):
+            continue  # a helper that does not produce the handled message (e.g. a registry getter)
         n += 1
         chk.instance(rule)
         bad = None
